@@ -189,6 +189,15 @@ fn cell(entry: usize, sig: i32, ctx: usize, e: &mut Emit) {
     let empty: [i32; 0] = [];
     #[allow(unused_mut)]
     let mut inst = Instances { a: SignalsInfo::<SignalOnly>::new(&empty).unwrap(), b: SignalsInfo::<WithRawSiginfo>::new(&empty).unwrap(), c: SignalsInfo::<WithOrigin>::new(&empty).unwrap() };
+    if ctx == 4 {
+        // the instances already watch low-numbered signals (a number congruent to one of them modulo the
+        // table size must still be refused)
+        for s in [libc::SIGHUP, libc::SIGINT] {
+            inst.a.handle().add_signal(s).unwrap();
+            inst.b.handle().add_signal(s).unwrap();
+            inst.c.handle().add_signal(s).unwrap();
+        }
+    }
     if ctx == 3 {
         // the instances have been closed: additions are still judged like on an open one
         inst.a.handle().close();
@@ -291,11 +300,13 @@ pub fn expected(entry: usize, sig: i32, os_ok: bool) -> &'static str {
     if iterator && (sig < 0 || sig >= 128) {
         return "panic";
     }
-    if entry == 7 && signal_hook::low_level::signal_name(sig).is_none() {
-        return "err";
-    }
     if checked && forbidden(sig) {
         return "panic";
+    }
+    // register_conditional_default refuses signals whose default action it does not know: on Linux the
+    // named signals 1..31 except SIGSTKFLT (16) and SIGPWR (30) - the checker's own list
+    if entry == 7 && !(sig >= 1 && sig <= 31 && sig != 16 && sig != 30) {
+        return "err";
     }
     if !os_ok {
         return "err";
@@ -303,7 +314,7 @@ pub fn expected(entry: usize, sig: i32, os_ok: bool) -> &'static str {
     "ok"
 }
 
-const CTX: [&str; 4] = ["fresh", "after-two-registrations", "after an unchecked registration (and removal) of the same number", "on an instance that has been closed"];
+const CTX: [&str; 5] = ["fresh", "after-two-registrations", "after an unchecked registration (and removal) of the same number", "on an instance that has been closed", "on an instance that already watches SIGHUP and SIGINT"];
 
 pub fn run(tier: Tier) -> BResult {
     let sigs = sig_list();
@@ -320,6 +331,9 @@ pub fn run(tier: Tier) -> BResult {
     for en in 13..=15 {
         for (i, &s) in sigs.iter().enumerate() {
             cells.push((en, s, 3, verdict[i]));
+            if s != libc::SIGHUP && s != libc::SIGINT {
+                cells.push((en, s, 4, verdict[i]));
+            }
         }
     }
     let cells_ref = cells.clone();
@@ -386,7 +400,7 @@ pub fn run(tier: Tier) -> BResult {
             }
         }
         if let Some(m) = bad {
-            violations.push(BViolation { message: format!("C14: {} with signal {} ({}): {}", ENTRY[en], s, ["fresh process", "after two registrations", "after an unchecked registration and removal of the same number", "on an instance that has been closed"][c], m), case });
+            violations.push(BViolation { message: format!("C14: {} with signal {} ({}): {}", ENTRY[en], s, ["fresh process", "after two registrations", "after an unchecked registration and removal of the same number", "on an instance that has been closed", "on an instance that already watches SIGHUP and SIGINT"][c], m), case });
         }
     }
     BResult {
@@ -399,7 +413,7 @@ pub fn run(tier: Tier) -> BResult {
         violations,
         exhaustive: true,
         caps: vec![],
-        rule: "complete grid entry point (19: the three iterator constructors also with an accepted signal listed before the number under test - its action, slots and pipe must be gone after the refusal) x signal number ([-2,130] + i32::MIN/MAX) x context {fresh, after two other registrations, after an unchecked registration+removal of the same number; Handle::add_signal also on a closed instance}; expected class per cell from a rule (forbidden+checked => catchable panic; OS verdict obtained by an independent sibling calling sigaction => Err; iterator front-ends panic for negative / >= 128; register_conditional_default Err for numbers without a name; else Ok); plus 4 refused registrations whose action captured state that re-enters the library when released; distinct = distinct (entry, outcome class, child fate, expected) tuples".into(),
+        rule: "complete grid entry point (19: the three iterator constructors also with an accepted signal listed before the number under test - its action, slots and pipe must be gone after the refusal) x signal number ([-2,130] + i32::MIN/MAX) x context {fresh, after two other registrations, after an unchecked registration+removal of the same number; Handle::add_signal also on a closed instance and on one that already watches SIGHUP and SIGINT}; expected class per cell from a rule (forbidden+checked => catchable panic; OS verdict obtained by an independent sibling calling sigaction => Err; iterator front-ends panic for negative / >= 128; register_conditional_default Err for numbers without a name; else Ok); plus 4 refused registrations whose action captured state that re-enters the library when released; distinct = distinct (entry, outcome class, child fate, expected) tuples".into(),
         assumptions: vec!["kernel/libc verdict on a signal number is taken from an independent sigaction call in a sibling process".into(), "x86-64 Linux".into()],
     }
 }
